@@ -202,5 +202,53 @@ theorem findIsometry_isIso' {r : K → K} (hr : IsSqrt r) (x : Fin (n + 1) → K
   · have : (i : ℕ) ≠ k := fun h => hik (Fin.ext h)
     rw [if_neg this, if_neg hik]
 
+theorem mink_normalizeVec {r : K → K} (hr : IsSqrt r) (x : Fin (n + 1) → K) :
+    ∃ c : K, c ≠ 0 ∧ mink (normalizeVec r (minkJ n) x) (normalizeVec r (minkJ n) x) = c * c * mink x x := by
+  refine ⟨nfac r (minkJ n) x, nfac_ne_zero hr _ x, ?_⟩
+  rw [← bil_minkJ, bil_normalizeVec, bil_minkJ]
+
+theorem normalizeVec_timelike {r : K → K} (hr : IsSqrt r) (x : Fin (n + 1) → K) (hx : mink x x < 0) :
+    mink (normalizeVec r (minkJ n) x) (normalizeVec r (minkJ n) x) < 0 := by
+  obtain ⟨c, hc, h⟩ := mink_normalizeVec hr x
+  rw [h]; exact mul_neg_of_pos_of_neg (mul_self_pos.2 hc) hx
+
+/-- the first row of the frame completed by `spacelike_to` is timelike whenever `v` is spacelike -/
+theorem spacelikeFrame_timelike {r : K → K} (hr : IsSqrt r) (v : Fin (n + 1) → K) (hv : 0 < mink v v) :
+    ∃ t rest, spacelikeFrame r v = t :: rest ∧ mink t t < 0 := by
+  unfold spacelikeFrame
+  refine ⟨_, _, rfl, ?_⟩
+  set vn := normalizeVec r (minkJ n) v with hvn
+  obtain ⟨c, hc, h⟩ := mink_normalizeVec hr v
+  have hq : 0 < mink vn vn := by rw [h]; exact mul_pos (mul_self_pos.2 hc) hv
+  have he : mink (Pi.single 0 1 : Fin (n + 1) → K) (Pi.single 0 1) = -1 := by
+    simp [mink, dot, Fin.tail]
+  unfold gproj
+  rw [← bil_minkJ, bil_sub_left, bil_sub_right, bil_sub_right, bil_smul_left, bil_smul_right, bil_smul_right,
+    bil_smul_left]
+  simp only [bil_minkJ]
+  rw [he, mink_comm vn (Pi.single 0 1)]
+  set a := mink (Pi.single 0 1 : Fin (n + 1) → K) vn
+  have : -1 - a / mink vn vn * a - (a / mink vn vn * a - a / mink vn vn * (a / mink vn vn * mink vn vn))
+      = -1 - a ^ 2 / mink vn vn := by field_simp; ring
+  rw [this]
+  have : 0 ≤ a ^ 2 / mink vn vn := div_nonneg (sq_nonneg a) hq.le
+  linarith
+
+/-- `(Winv ρ W)ᵀ` is an isometry when `ρ` preserves `B` and `(W, Winv)` diagonalises `B` to `J` -/
+theorem hyperbolicRepMat_isIso (B W Winv rho : Matrix (Fin (n + 1)) (Fin (n + 1)) K)
+    (hB : rhoᵀ * B * rho = B) (hW : Wᵀ * B * W = minkJ n) (hinv : W * Winv = 1) :
+    IsIso (hyperbolicRepMat W Winv rho) := by
+  have hinv' : Winv * W = 1 := mul_eq_one_comm.1 hinv
+  have hBJ : B = Winvᵀ * minkJ n * Winv := by
+    rw [← hW]
+    have h1 : Winvᵀ * Wᵀ = 1 := by rw [← Matrix.transpose_mul, hinv, Matrix.transpose_one]
+    calc B = (Winvᵀ * Wᵀ) * B * (W * Winv) := by rw [h1, hinv, Matrix.one_mul, Matrix.mul_one]
+      _ = Winvᵀ * (Wᵀ * B * W) * Winv := by simp only [Matrix.mul_assoc]
+  unfold IsIso hyperbolicRepMat
+  rw [Matrix.transpose_transpose, Matrix.transpose_mul, Matrix.transpose_mul]
+  calc Wᵀ * (rhoᵀ * Winvᵀ) * minkJ n * (Winv * rho * W)
+      = Wᵀ * (rhoᵀ * (Winvᵀ * minkJ n * Winv) * rho) * W := by simp only [Matrix.mul_assoc]
+    _ = minkJ n := by rw [← hBJ, hB, hW]
+
 end ordered
 end GT.GS
